@@ -257,6 +257,7 @@ namespace {
       std::vector<const ipr::Stmt*> order;          // tree statements in pre-order
       int counter = 0;
       bool noisy = false;
+      bool edge = false;            // the Lexicon starts right before the end of a string storage block; the noise interns no words
       std::mt19937_64 g { 7 };
 
       std::vector<void*> holes;
@@ -272,7 +273,7 @@ namespace {
             std::free(holes[i]);
             holes.erase(holes.begin() + static_cast<long>(i));
          }
-         for (int k = 0; k < 40; ++k) {
+         for (int k = 0; k < 40 and not edge; ++k) {
             auto s = "noise" + std::to_string(g() % 100000);
             auto& id = lex.get_identifier(vh::u8(s));
             lex.get_pointer(lex.get_as_type(id));
@@ -521,6 +522,8 @@ namespace {
          // -- C17: same construction in another lexicon with unrelated allocations in between; printing again
          Program b;
          b.noisy = true;
+         // one tree in four: the words of the program lie on both sides of a change of string storage block
+         if (trees % 4 == 0) b.edge = vh::to_edge(b.lex, static_cast<int>((static_cast<unsigned long>(trees) * 2654435761ul >> 7) % 64));
          auto& sb = b.build(tree, *b.unit.global_region());
          auto da = digest(a), db = digest(b);
          auto ta = render(a.lex, sa, false);
